@@ -19,7 +19,7 @@ PARTIAL = {}
 TRUSTED = [
     'C20: the file system is a predicate on the literal strings passed to os.path.exists, fixed during one call; '
     'os.path.expandvars is the identity (candidate paths contain no $)',
-    'C20: configparser is modelled on the grammar subset comment/blank/`key = value` lines (no sections, no %, no '
+    'C20: configparser is modelled on the grammar subset comment/blank/`key = value` lines (no sections, no '
     'continuation lines, no value-less lines); a repeated option raises',
     'C20: urllib.parse.urlsplit is modelled on printable ASCII without whitespace; validity of a bracketed IPv6 / '
     'IPvFuture literal (urllib.parse._check_bracketed_host -> ipaddress) enters the model as a boolean',
@@ -203,13 +203,13 @@ end Ndn.Gen.C20
 
 # ------------------------------------------------------------------------------ cases
 HOMES = ['/home/u', '/root', '/h']
-ABS_LOCS = ['/var/lib/ndn/pib', '/data/keys', '/k', '/data/k=1', '/srv/a#b;c']
-REL_LOCS = ['keys', 'sub/pib', '../k', 'ndnsec-key-file', 'k=v/pib', './keys']
+ABS_LOCS = ['/var/lib/ndn/pib', '/data/keys', '/k', '/data/k=1', '/srv/a#b;c', '/data/k%20x', '/srv/%(home)s/pib', '/p%%q']
+REL_LOCS = ['keys', 'sub/pib', '../k', 'ndnsec-key-file', 'k=v/pib', './keys', 'k%/pib']
 PIB_SCHEMES = ['pib-sqlite3', 'pib-sqlite3', 'pib-memory', 'x', '']
 TPM_SCHEMES = ['tpm-file', 'tpm-file', 'tpm-memory', 'y', '']
 TRANSPORTS = ['unix:///run/nfd/nfd.sock', 'unix:///tmp/n.sock', 'tcp://localhost:6363', 'udp4://10.0.0.1',
               'tcp://[::1]:7000', 'bogus://x', '', 'tcp4://router.example.net:9000', 'unix:///tmp/a=b.sock',
-              'udp6://[::1]:6363', 'unix:///run/x.sock?a=b:c#d=e', 'tcp://h:1=2']
+              'udp6://[::1]:6363', 'unix:///run/x.sock?a=b:c#d=e', 'tcp://h:1=2', 'unix:///tmp/a%20b.sock']
 
 
 def _store_value(rng, key, plat):
@@ -528,7 +528,8 @@ def model_line(case, impl):
                     vals += [l[1], l[2]]
                     if not l[1] or l[2] != l[2].strip() or any(c in l[1] for c in '=:[] '):
                         return None
-        if not all(_in_grammar(v) for v in vals):
+        # configuration values are literal text, % included (fixed in /repo: ConfigParser(interpolation=None))
+        if not all(_in_grammar(v.replace('%', 'p')) for v in vals):
             return None
         fs = []
         for p, ls in case['files']:
